@@ -366,6 +366,46 @@ def sparse_skip_conservation(prog, res):
     res.need(R, 6)
 
 
+def frames_end_on_empty_input(prog, res):
+    """T3: the CLI's verdict for a file equals the library's.  The frame loop of FIO_decompressFrames may report success
+    (return 0) only when, after at least one frame, NOTHING is left in the input: its only way to the success return is the
+    edge on which the read buffer holds exactly zero bytes.  1..3 left-over bytes cannot be a frame (the library refuses them
+    as srcSize_wrong / prefix_unknown) and must not be taken for the end of the file."""
+    R = "T3.frames-end-on-empty-input"
+    f = prog.fn("FIO_decompressFrames")
+    ok_rets = [(b, i) for b, i, r in f.returns() if r.get("e") is not None and strip_casts(r["e"]).get("k") == "int" and const_val(r["e"]) == 0]
+    res.check(len(ok_rets) >= 1, R, "success-return", f.loc, "%d literal success return(s)" % len(ok_rets), "FIO_decompressFrames has no literal `return 0`")
+    loaded = lambda a: any(y.get("k") == "mem" and y.get("f") == "srcBufferLoaded" for y in f.walk_resolved(a))
+    empty = guards.rel_edges(f, loaded, "==", lambda b_: const_val(strip_casts(b_)) == 0) + \
+        cond_edges(f, lambda c: c.get("k") == "mem" and c.get("f") == "srcBufferLoaded", "false")
+    ok = bool(empty) and bool(ok_rets) and f.must_pass(via_edges=empty, targets=ok_rets)
+    res.check(ok, R, "success-only-when-nothing-left", f.loc, "the success return is reached only through `srcBufferLoaded == 0`",
+              "FIO_decompressFrames can report success with bytes left in its input buffer (e.g. on `srcBufferLoaded < 4`): 1 to 3 trailing bytes after a "
+              "valid frame, which the library rejects, give exit status 0 - and with --rm the damaged source is deleted")
+    res.need(R, 2)
+
+
+def shared_destination_on_failure(prog, res):
+    """T3: "a failed operation leaves no output file behind" for the mode where several inputs go into ONE destination
+    (`-o FILE` with several sources): the destination is opened once by FIO_(de)compressMultipleFilenames, every source is
+    processed into it and the statuses are OR-ed.  When a status is non-zero the function must remove the destination (or
+    never have created it) before it returns that status: structurally, a FIO_removeFile / remove call lies between the
+    close of the shared destination and the return."""
+    R = "T3.shared-destination-removed-on-failure"
+    for name in ("FIO_decompressMultipleFilenames", "FIO_compressMultipleFilenames"):
+        f = prog.fn(name)
+        opens = f.call_roots("FIO_openDstFile")
+        res.check(len(opens) >= 1, R, name + ":shared-open", f.loc, "opens one destination for all sources", "%s no longer opens a shared destination" % name)
+        if not opens:
+            continue
+        after = f.flow([(b, i + 1) for b, i in opens])
+        rm = [t for t in f.call_roots(("FIO_removeFile", "remove", "FIO_remove")) if t in after]
+        res.check(bool(rm), R, name, f.loc, "a failed source removes the shared destination",
+                  "%s opens one destination for several sources, ORs their statuses and returns: nothing removes the destination when a source "
+                  "failed, so `zstd -d a.zst truncated.zst -o out` exits 1 and leaves `out` with a partial result" % name)
+    res.need(R, 4)
+
+
 def run(tier):
     res = Result("C19", tier)
     tus, info = extract(["programs", "common", "compress", "decompress"])
@@ -380,6 +420,8 @@ def run(tier):
     stdio_discipline(prog, res)
     sparse_skip_conservation(prog, res)
     t4_common.run(prog, res, "T4.error-discipline", ["programs/fileio.c", "programs/fileio_asyncio.c"], 15)
+    frames_end_on_empty_input(prog, res)
+    shared_destination_on_failure(prog, res)
     return res.finish(
         explanation="Order-of-effects rules on the CFG of the CLI's file pipeline: the source is removed only on the path "
                     "where --rm is set, the destination stage returned 0 (work, clearHandler, close with its result "
